@@ -290,7 +290,10 @@ def shape_rules(ctx, rid, core, G, scope_fns):
                 # a mismatch counts only when the output is made of this construct's own parts: text that comes from something else
                 # (a pre-rendered child handed in as a String parameter, a helper's own locals) means the representation was not understood
                 foreign = [x for x in strip_layout(flat) if x[0] in ("child", "ident", "rewritten", "loop", "opt") and x[1] and ren.get(x[1][0], x[1][0]) not in names_]
-                if foreign:
+                # a whole member list handed to one helper call (`format_collection(entries, ..)`): the construct is printed there
+                lists_ = {w[1] for w in SKEL[variant] if isinstance(w, tuple) and w[0] == "L"}
+                delegated = [x for x in strip_layout(flat) if x[0] == "child" and x[1] and len(x[1]) == 1 and ren.get(x[1][0], x[1][0]) in lists_]
+                if foreign or delegated:
                     unk = True
                     continue
                 bad.append(why)
